@@ -60,6 +60,9 @@ CHECKS = {
     "C08": dict(
         text="Coq theorems over the model of the fan-out loop and of subscribe/unsubscribe: one frame appends to every queue exactly the groups of the enabled channels it is subscribed to, once per subscription, and changes nothing else; for ANY sequence of frames the queue holds, after what it held, the groups in frame order (no gap, no duplicate, nothing foreign); frames without samples / with foreign or disabled channels only / with just the overflow flag disturb nothing; an unsubscribed queue receives nothing; the two hops in front (receive thread routing, stream queue) are FIFO for every interleaving (delivered ++ waiting = sent); progress and termination of draining (eventual delivery under fairness of the two library threads). Tie: scripted frame sequences with subscribe/unsubscribe/buffered-unwritten changes on the real NxscopeHandler compared with the model; concurrent bursts with subscription churn judged by the run monitor. PARTIAL on 'eventually': OS fairness assumed.",
         design="3/C08", technique="Coq proof (induction over frame sequences and pipeline traces) + differential on the real handler + monitored concurrent exploration"),
+    "C12": dict(
+        text="Coq theorems: the lock-nesting relation regenerated from comm.py / nxscope.py / dev.py by the translator respects one rank order (channels lock -> device-info lock only, C12_lock_order, recomputed on every run); the receive path takes no lock; in any system where locks are requested in increasing rank there is no wait-for cycle among any number of threads (C12_no_deadlock); on an acknowledging device, after any history of configuration operations (all threads' operations, serialised by the channels lock) what the client reports equals the device's state (C12_consistent_reads, by the sync invariant); a final acknowledged write leaves the device at the last requested state. Tie + exploration: 2..4 real application threads with generated programs, delayed ACKs, a running stream and a 10 us switch interval; watchdog as deadlock detector, exceptions, every ch_is_enabled answer checked against the device, final state checked. PARTIAL: synchronisation-point granularity; real interleavings sampled, not enumerated.",
+        design="3/C12", technique="Coq proof (rank argument for deadlock freedom; invariant for consistent reads) + translator-regenerated lock graph + monitored exploration of real threads"),
 }
 PENDING = {}
 
